@@ -60,7 +60,7 @@ RULE = (
     'actions after a removal. datagram: valid message/bundle (nesting <=3, '
     'or 20-1000 deep) mutated by truncation, bit flips, int32 splices '
     '(-2^31..2^31-1 and near-boundary) into element-size/blob-size fields, '
-    'chopping 1-8 tail bytes, '
+    'chopping 1-8 tail bytes, overwriting the first byte of an element, '
     'type-tag overrides with unbalanced brackets, bad UTF-8, inserted/'
     'appended bytes, or raw byte strings; non-trivial = the mutated packet '
     'still starts with "#bundle\\0" or "/" and differs from the valid one. '
@@ -1405,8 +1405,8 @@ def registry_strategy():
     nc = st.fixed_dictionaries({
         'family': st.just('notification'),
         'ops': st.lists(ncops, min_size=8, max_size=30)})
-    return st.one_of(sysops('CmdPeriod'), sysops('StartUp'),
-                     sysops('ShutDown'), server, server, nc, nc)
+    return st.one_of(server, nc, sysops('CmdPeriod'), server, nc,
+                     sysops('StartUp'), server, nc, sysops('ShutDown'))
 
 
 # --- stage: datagram --------------------------------------------------------------------
@@ -1565,6 +1565,12 @@ def build_datagram(case):
             data += bytes.fromhex(mop[1])
         elif name == 'chop':
             data = data[:max(0, n - mop[1])]
+        elif name == 'elemhead':
+            # first byte of a bundle element (after its size field)
+            offs = [o + 4 for o in marks['size'] if o + 5 <= n
+                    and data[o + 4:o + 5] in (b'/', b'#')]
+            if offs:
+                data[offs[mop[1] % len(offs)]] = mop[2]
     return valid, bytes(data), depth
 
 
@@ -1828,6 +1834,8 @@ def datagram_strategy():
         st.tuples(st.just('append'),
                   st.binary(min_size=1, max_size=8).map(bytes.hex)),
         st.tuples(st.just('chop'), st.integers(1, 8)),
+        st.tuples(st.just('elemhead'), st.integers(0, 15),
+                  st.sampled_from([0, 0x58, 0x2e, 0x23, 0x2f])),
     ).map(list)
     return st.fixed_dictionaries({
         'base': base,
